@@ -3,7 +3,8 @@ import Cvss.Proofs.Parse4Run
 /-!
 # ErrInvalidCVSSHeader is returned for a wrong header only (converse of the header clause of C18)
 
-Once the header test has passed, no later step of the v3 / v4.0 parser models returns code 1: the element
+Once the header test has passed (v4.0: the prefix `CVSS:4.0` *and* the separator test behind it), no later step of the
+v3 / v4.0 parser models returns code 1: the element
 loops return ErrInvalidMetricOrder / ErrTooShortVector / `*ErrDefinedN` / `*ErrMissing` / `*ErrInvalidMetric`
 themselves, and whatever `Set` returns — for any `Set` satisfying the contract that is `nil`,
 ErrInvalidMetricValue or `*ErrInvalidMetric`.
@@ -89,20 +90,30 @@ theorem finish_code_ne_one (K : Contract Model.O40 Spec.V4.metrics) (w : List Pa
     · cases h; simp [Model.eTooShort]
     · cases h
 
-/-- v4.0: ErrInvalidCVSSHeader ⇔ the string does not begin with `CVSS:4.0` -/
+/-- v4.0: ErrInvalidCVSSHeader ⇔ the string is neither the bare `CVSS:4.0` nor begins with `CVSS:4.0/` -/
 theorem parseK_header_iff (K : Contract Model.O40 Spec.V4.metrics) (s : Bytes) :
-    P4.parseK K s = .err Model.eHeader ↔ ¬ Spec.V4.header <+: s := by
-  rcases P4.parseK_cases K s with ⟨hn, e⟩ | ⟨hs, e⟩ | ⟨_, _, hs, _, e⟩ | ⟨r, hs, e⟩
-  · exact ⟨fun _ => hn, fun _ => e⟩
+    P4.parseK K s = .err Model.eHeader ↔ ¬ (s = Spec.V4.header ∨ (Spec.V4.header ++ [47]) <+: s) := by
+  rcases P4.parseK_cases K s with ⟨hn, e⟩ | ⟨hs, e⟩ | ⟨c, r, hs, hc, e⟩ | ⟨r, hs, e⟩
+  · refine ⟨fun _ h => hn ?_, fun _ => e⟩
+    rcases h with rfl | h
+    · exact List.prefix_refl _
+    · exact (List.prefix_append _ _).trans h
   · rw [e]
-    exact ⟨fun h => absurd h (by decide), fun h => absurd ⟨[], by simp [hs]⟩ h⟩
-  · rw [e]
-    exact ⟨fun h => absurd h (by decide), fun h => absurd ⟨_, hs.symm⟩ h⟩
+    exact ⟨fun h => absurd h (by decide), fun h => absurd (Or.inl hs) h⟩
+  · refine ⟨fun _ h => ?_, fun _ => e⟩
+    subst hs
+    rcases h with h | h
+    · have := congrArg List.length h
+      simp at this
+    · rw [List.prefix_append_right_inj] at h
+      obtain ⟨t, ht⟩ := h
+      simp only [List.singleton_append, List.cons.injEq] at ht
+      exact hc ht.1.symm
   · rw [e]
     constructor
     · intro h
       exact absurd rfl (finish_code_ne_one K _ _ h)
     · intro h
-      exact absurd ⟨_, hs.symm⟩ h
+      exact absurd (Or.inr ⟨r, by simp [hs, Spec.SLASH]⟩) h
 
 end Proofs.HeaderErr
